@@ -42,6 +42,8 @@ def gen_stray(rnd, snap, cfg):
             kinds += ["never_queried"] * 2
         if snap["tagged"] and fresh:
             kinds += ["never_queried"] * 4      # a newly added service may sit in a recycled slot of the table
+        if snap.get("waiting") and len(svcs) > 1 and [s for s in cfg["services"] if s not in svcs]:
+            kinds += ["never_queried"] * 6      # the table lost an entry during this history: slots may have moved
     if not kinds:
         return None
     k = rnd.choice(kinds)
@@ -82,7 +84,10 @@ def gen_stray(rnd, snap, cfg):
         if not rest:
             return None
         newer = [s for s in rest if s in fresh]
-        op["svc"] = rnd.choice(newer if newer and rnd.random() < 0.7 else rest)
+        order = sorted(svcs, key=lambda n: n.lower())
+        aw = [s for (c, s) in snap["await"] if c == op["cid"]]
+        near = [s for s in rest if any(abs(order.index(s) - order.index(a)) == 1 for a in aw if a in order)]
+        op["svc"] = rnd.choice(newer if newer and rnd.random() < 0.7 else near if near and rnd.random() < 0.6 else rest)
     return op
 
 
@@ -160,6 +165,10 @@ class StrayProfile:
         agg = None
         for _ in range(tries):
             p = rnd.randrange(1, min(npos, nops - 1) + 1) if min(npos, nops - 1) >= 1 else None
+            after = [j + 1 + d for j, o in enumerate(plan["ops"]) if o.get("op") == "reload" and o.get("how") == "tables"
+                     for d in range(0, 5) if 1 <= j + 1 + d <= min(npos, nops - 1)]
+            if p is not None and after and rnd.random() < 0.4:
+                p = rnd.choice(after)       # shortly after the service table changed under the live clients
             if p is None:
                 break
             st = gen_stray(rnd, ra.snaps[p - 1], plan["cfg"])
